@@ -358,7 +358,12 @@ pub fn check_select(sc: &Scenario, s: &SelectObs, out: &mut Outcome, dup_class: 
     }
     have.add(&s.post_mint_pos);
     out.nontrivial = true;
-    let need_coin = to.coin + mf as i128;
+    // under a "not less than" fee request the library's running fee figure may lie up to 4 x fee
+    // coefficient below min_fee() (fee field written with 1 instead of 5 bytes on one side of the
+    // alignment); the real minimum fee lies in that window too, so the rule demands the lower end
+    let fee_min_requested = sc.ops[..s.op].iter().any(|o| matches!(o, Op::FeeMin(_)));
+    let slack: i128 = if fee_min_requested { 4 * sc.knobs.fee_a as i128 } else { 0 };
+    let need_coin = to.coin + mf as i128 - slack;
     if have.coin < need_coin {
         out.violate(
             "C08.cover.lovelace",
